@@ -26,19 +26,37 @@ def solve(constraints, timeout_ms=20000, want_model=True, strings=False, seed=0)
     s.set("timeout", timeout_ms)
     if seed: s.set("random_seed", seed)
     s.add(*constraints)
+    smt = None
+    is_str = False
+    try:
+        smt = s.to_smt2(); is_str = ("str." in smt) or ("String" in smt)
+    except Exception: pass
+    if is_str:
+        # string obligations: cvc5 (--strings-exp) decides what z3's sequence solver leaves open; z3 first with a short budget
+        s.set("timeout", min(timeout_ms, 3000))
+        r = s.check()
+        if r == z3.unsat: return "unsat", None, time.time() - t0, "z3"
+        if r == z3.sat: return "sat", (s.model() if want_model else None), time.time() - t0, "z3"
+        try:
+            r2, out = run_cvc5(smt, timeout_ms, True)
+            if r2 == "unsat": return "unsat", None, time.time() - t0, "cvc5"
+            if r2 == "sat":
+                s.set("timeout", timeout_ms)
+                if s.check() == z3.sat: return "sat", (s.model() if want_model else None), time.time() - t0, "cvc5+z3"
+                return "sat", None, time.time() - t0, "cvc5"
+        except Exception: pass
+        s.set("timeout", timeout_ms)
     r = s.check()
     dt = time.time() - t0
     if r == z3.unsat: return "unsat", None, dt, "z3"
     if r == z3.sat: return "sat", (s.model() if want_model else None), dt, "z3"
-    # z3 unknown: try cvc5 on the same query
-    try:
-        smt = s.to_smt2()
-        r2, out = run_cvc5(smt, timeout_ms, strings)
-        dt = time.time() - t0
-        if r2 == "unsat": return "unsat", None, dt, "cvc5"
-        if r2 == "sat": return "sat", None, dt, "cvc5"      # model not imported; caller may re-solve with z3 under hints
-    except Exception as e:  # pragma: no cover
-        pass
+    if not is_str and smt is not None:
+        try:
+            r2, out = run_cvc5(smt, timeout_ms, True)
+            dt = time.time() - t0
+            if r2 == "unsat": return "unsat", None, dt, "cvc5"
+            if r2 == "sat": return "sat", None, dt, "cvc5"
+        except Exception: pass
     return "unknown", None, time.time() - t0, "z3+cvc5"
 
 
@@ -48,8 +66,7 @@ def run_cvc5(smt2, timeout_ms, strings=False):
         if "(set-logic" not in txt: txt = "(set-logic ALL)\n" + txt
         f.write(txt); path = f.name
     try:
-        cmd = [CVC5, f"--tlimit={timeout_ms}"]
-        if strings: cmd += ["--strings-exp"]
+        cmd = [CVC5, f"--tlimit={timeout_ms}", "--strings-exp"]
         p = subprocess.run(cmd + [path], capture_output=True, text=True, timeout=timeout_ms / 1000 + 10)
         out = p.stdout.strip().splitlines()
         res = out[0].strip() if out else "unknown"
